@@ -408,7 +408,7 @@ func (e *Eng) evalCallInner(st *State, call *ast.CallExpr) []*Val {
 	}
 	// address-taken locals passed as &x may be overwritten by the callee
 	defer e.havocAddrTaken(st, call)
-	if e.con != nil && e.con.Safe && strings.Contains(key, repoModule) && !strings.HasPrefix(key, "dyn:") && !strings.HasPrefix(key, "field:") {
+	if e.con != nil && e.con.Safe && strings.Contains(key, repoModule) && !strings.HasPrefix(key, "dyn:") && !strings.HasPrefix(key, "field:") && !e.userResolverMethod(call) {
 		// `safe` is about gqlgen's OWN code: a callee that is gqlgen code must itself be under a contract that says
 		// something about its panics (safe / nopanic / noescape), or be trusted explicitly (a listed assumption) -
 		// otherwise moving code into a new helper would move it out of the claim
@@ -1053,4 +1053,30 @@ func (e *Eng) inlineOwnHelper(st *State, key string, recv *Val, args []*Val, cal
 	}
 	*st = *out
 	return vals, true
+}
+
+// userResolverMethod: the call is a method of one of the resolver interfaces a generated package declares for the
+// user to implement (ResolverRoot, QueryResolver, EntityResolver, ...): user code, not gqlgen's own - it may panic
+// (the exceptional path is explored) and needs no contract.
+func (e *Eng) userResolverMethod(call *ast.CallExpr) bool {
+	sel, ok := ast.Unparen(call.Fun).(*ast.SelectorExpr)
+	if !ok {
+		return false
+	}
+	s, ok := e.info.Selections[sel]
+	if !ok {
+		return false
+	}
+	nt, ok := types.Unalias(s.Recv()).(*types.Named)
+	if !ok {
+		return false
+	}
+	if _, isIface := nt.Underlying().(*types.Interface); !isIface || nt.Obj().Pkg() == nil || nt.Obj().Pkg() != e.pkg.Types {
+		return false
+	}
+	if _, generated := e.funcIndex.byKey[e.pkg.PkgPath+".NewExecutableSchema"]; !generated {
+		return false
+	}
+	n := nt.Obj().Name()
+	return n == "ResolverRoot" || strings.HasSuffix(n, "Resolver")
 }
